@@ -2170,6 +2170,63 @@ def _oracle_api(case):
             except Exception as e:  # noqa: BLE001
                 v.append((f"C04/api/copy/{fmt}/error/{type(e).__name__}", f"{type(e).__name__}: {str(e)[:140]}"))
 
+        # ---- 3c. a structure that was read shares nothing with the file object it was read from
+        try:
+            import copy as _copy
+            s1 = _copy.deepcopy(sa)
+            s1["stack"], s1["coords"] = False, sa["coords"][:1]
+            n1 = len(s1["atoms"])
+            s1["atoms"][0][6] = "ZN"                                   # a two-letter element widens the column
+            for a in s1["atoms"]:
+                if a[0] == s1["atoms"][0][0]:
+                    a[0] = (a[0] + "LONGCHAIN")[:9]                    # chain ids of >= 4 characters
+            s1["extra"] = dict(s1.get("extra") or {}, my_field=[f"v{i}" for i in range(n1)])
+            one = build_array(s1)
+            for File, fmt in files:
+                base = File()
+                put(base, one, s1)
+                for state, g in (("filled-by-set_structure", base), ("re-read", _reread(base))):
+                    alts = ["first", "all"] + (["occupancy"] if "occupancy" in one.get_annotation_categories() else [])
+                    for alt in alts:
+                        for mdl in (1, None):
+                            snap = _file_bytes(g)
+                            kw = dict(_read_kw(s1), model=mdl, altloc=alt)
+                            r = pdbx.get_structure(g, **kw)
+                            ref = r.copy()
+                            # the caller edits the result in place
+                            if r.coord.flags.writeable:
+                                r.coord[...] = r.coord * np.float32(2.0) + np.float32(1.0)
+                            if r.box is not None and r.box.flags.writeable:
+                                r.box[...] = r.box * 3
+                            for c in r.get_annotation_categories():
+                                arr_ = r.get_annotation(c)
+                                if not arr_.flags.writeable:
+                                    continue
+                                if arr_.dtype.kind in "iu":
+                                    arr_[...] = arr_ + 5
+                                elif arr_.dtype.kind == "f":
+                                    arr_[...] = arr_ * 2 + 1
+                                elif arr_.dtype.kind == "b":
+                                    arr_[...] = ~arr_
+                                elif arr_.dtype.kind == "U":
+                                    arr_[...] = "~"
+                            try:
+                                changed = _file_bytes(g) != snap
+                            except Exception as e:  # noqa: BLE001
+                                changed = True
+                            again = pdbx.get_structure(g, **kw)
+                            if changed or again != ref:
+                                v.append((f"C04/api/aliasing/get_structure/altloc-{alt}",
+                                          f"{fmt} ({state}, model={mdl}): editing the returned structure in place changed the file object "
+                                          f"({'serialisation differs' if changed else 'a second get_structure returns the edited values'})"))
+                                g = _reread(base) if state == "re-read" else g
+                                if state != "re-read":
+                                    base = File()
+                                    put(base, one, s1)
+                                    g = base
+        except Exception as e:  # noqa: BLE001
+            v.append((f"C04/api/aliasing/get_structure/error/{type(e).__name__}", f"{type(e).__name__}: {str(e)[:140]}"))
+
         # ---- 4. arguments forwarded through the layers, defaults, ambient state
         for File, fmt in files:
             f = File()
